@@ -74,6 +74,32 @@ let handle (f : string array) : string =
     let ops = List.map c12_mop (List.tl (List.tl (Array.to_list f))) in
     let l = mobserve (mj_init (zi f.(1))) ops in
     if l = [] then "-" else String.concat ";" (List.map c12_mobs l)
+  | "i" ->
+    (* holders 1..k acquire, then request 0, then the concurrent operation
+       (with the mutex held over the whole Acquire call that is the order) *)
+    let nf = Array.length f in
+    let held = List.init (nf - 4) (fun k -> CAcquire (n_of_int (k + 1), zi f.(4 + k))) in
+    let x = match String.split_on_char ',' f.(3) with
+      | ["r"; k] -> CRelease (ni k)
+      | _ -> c12_cop f.(3) in
+    let ops = held @ [CAcquire (N0, zi f.(2)); x] in
+    let l = cobserve (client_init (zi f.(1))) ops in
+    let nh = List.length held in
+    let holders_ok = List.for_all (fun o ->
+      List.exists (function EGrantNow _ -> true | _ -> false) o.o_events)
+      (List.filteri (fun k _ -> k < nh) l) in
+    if not holders_ok then "HOLDER" else begin
+      let tail = List.filteri (fun k _ -> k >= nh) l in
+      let evs = List.concat_map (fun o -> o.o_events) tail in
+      let is0 id = int_of_n id = 0 in
+      let outcome =
+        if List.exists (function EError id -> is0 id | _ -> false) evs then "e"
+        else if List.exists (function EGrantNow (id, _) -> is0 id | EGrantQ (id, _) -> is0 id | _ -> false) evs then "g"
+        else "q" in
+      let last = List.nth l (List.length l - 1) in
+      Printf.sprintf "%s %s,%s,%s,%s" outcome (zs last.o_reserved) (zs last.o_cur) (zs last.o_avail) (zs last.o_qlen)
+    end
+  | "c" -> "done"
   | "j" ->
     let c = { max_cores = zi f.(1); max_mem_gb = zi f.(2); max_vmem_mb = zi f.(3);
               threads_per_job = zi f.(5); mem_gb_per_job = zi f.(6); extra_vmem_gb = zi f.(7) } in
